@@ -538,6 +538,24 @@ func (c *Ctx) enterLoop(fr *Frame, li *loopInfo, st *State) {
 					continue
 				}
 			}
+			if bases := mod.bases[k]; len(bases) > 0 && !mod.whole[k] && strings.HasPrefix(k, "H:") {
+				// only these (loop-invariant) objects of the struct heap are written in the loop
+				okAll := true
+				save := st.heaps[k]
+				for _, bv := range bases {
+					v, have := fr.vals[bv]
+					if !have || v.P == nil || v.P.Key != k || len(v.P.Path) != 0 {
+						okAll = false
+						break
+					}
+					hv := c.havocVal(v.P.ET, "loopobj")
+					c.store(st, v.P, hv.S)
+				}
+				if okAll {
+					continue
+				}
+				st.heaps[k] = save
+			}
 			st.heaps[k] = c.decl("loopheap_"+sanitize(k), c.heapSorts[k])
 		}
 		if mod.allocs {
@@ -594,24 +612,57 @@ func (c *Ctx) loopMods(fr *Frame, li *loopInfo) modSet {
 					}
 				}
 			}
+			// fields of an object reached through a loop-invariant pointer: only
+			// that object of the struct heap changes
+			if st, ok := in.(*ssa.Store); ok {
+				if root, ok := fieldRoot(st.Addr); ok && outsideLoop(li, root) {
+					if key, ok := c.ptrKeyOf(fr, st.Addr); ok && strings.HasPrefix(key, "H:") {
+						ms.bases[key] = append(ms.bases[key], root)
+						ms.keys[key] = true
+						continue
+					}
+				}
+			}
+			if ci, ok := in.(ssa.CallInstruction); ok {
+				if objs, ok := c.contractObjMods(fr, ci.Common()); ok {
+					inv := true
+					for _, o := range objs {
+						if !outsideLoop(li, o.root) {
+							inv = false
+						}
+					}
+					if inv {
+						for _, o := range objs {
+							ms.bases[o.key] = append(ms.bases[o.key], o.root)
+							ms.keys[o.key] = true
+						}
+						ms.ghost = true
+						ms.allocs = true
+						continue
+					}
+				}
+			}
 			before := map[string]bool{}
 			for k := range ms.keys {
 				before[k] = true
 			}
 			c.instrMods(fr, in, &ms, 0)
 			for k := range ms.keys {
-				if !before[k] && strings.HasPrefix(k, "A:") {
+				if !before[k] && (strings.HasPrefix(k, "A:") || strings.HasPrefix(k, "H:")) {
 					ms.whole[k] = true
 				}
 			}
 			if st, ok := in.(*ssa.Store); ok {
-				if k, ok := c.ptrKeyOf(fr, st.Addr); ok && strings.HasPrefix(k, "A:") {
+				if k, ok := c.ptrKeyOf(fr, st.Addr); ok && (strings.HasPrefix(k, "A:") || strings.HasPrefix(k, "H:")) {
 					ms.whole[k] = true
 				}
 			}
 			if _, ok := in.(ssa.CallInstruction); ok {
-				for k := range ms.keys {
-					if strings.HasPrefix(k, "A:") && !before[k] {
+				// a call that touches a key already written precisely may touch other objects of it
+				mk := modSet{keys: map[string]bool{}, bases: map[string][]ssa.Value{}, whole: map[string]bool{}}
+				c.instrMods(fr, in, &mk, 0)
+				for k := range mk.keys {
+					if strings.HasPrefix(k, "A:") || strings.HasPrefix(k, "H:") {
 						ms.whole[k] = true
 					}
 				}
@@ -619,6 +670,124 @@ func (c *Ctx) loopMods(fr *Frame, li *loopInfo) modSet {
 		}
 	}
 	return ms
+}
+
+// fieldRoot: the pointer a chain of field addresses (nested struct values)
+// starts from.
+func fieldRoot(v ssa.Value) (ssa.Value, bool) {
+	fa, ok := v.(*ssa.FieldAddr)
+	if !ok {
+		return nil, false
+	}
+	for {
+		inner, ok := fa.X.(*ssa.FieldAddr)
+		if !ok {
+			break
+		}
+		fa = inner
+	}
+	if _, ok := fa.X.Type().Underlying().(*types.Pointer); !ok {
+		return nil, false
+	}
+	return fa.X, true
+}
+
+type objMod struct {
+	root ssa.Value
+	key  string
+}
+
+// contractObjMods: the call goes to a function under contract whose modifies
+// clause only names fields of (or all of) objects passed as pointer
+// parameters; returns those actual arguments with their heap keys.
+func (c *Ctx) contractObjMods(fr *Frame, call *ssa.CallCommon) ([]objMod, bool) {
+	callee := call.StaticCallee()
+	if callee == nil {
+		return nil, false
+	}
+	ct := c.eng.contracts[fnKey(callee)]
+	if ct == nil || c.callPolicy(callee, ct, fr.depth) != polContract {
+		return nil, false
+	}
+	var out []objMod
+	for _, cl := range ct.byKind("modifies") {
+		for _, e := range cl.Exprs {
+			if id, ok := e.(*ast.Ident); ok && id.Name == "nothing" {
+				continue
+			}
+			if ce, ok := e.(*ast.CallExpr); ok {
+				if id, ok := ce.Fun.(*ast.Ident); ok && id.Name == "nothing" {
+					continue
+				}
+			}
+			x := e
+			if ce, ok := e.(*ast.CallExpr); ok {
+				id, ok := ce.Fun.(*ast.Ident)
+				if !ok || id.Name != "all" || len(ce.Args) != 1 {
+					return nil, false
+				}
+				if _, isId := ce.Args[0].(*ast.Ident); !isId {
+					return nil, false
+				}
+				x = ce.Args[0]
+			}
+			// x: ident or ident.f.g (struct values only below the root pointer)
+			var rootId *ast.Ident
+			var sels []string
+			for {
+				if pe, ok := x.(*ast.ParenExpr); ok {
+					x = pe.X
+					continue
+				}
+				if se, ok := x.(*ast.SelectorExpr); ok {
+					sels = append([]string{se.Sel.Name}, sels...)
+					x = se.X
+					continue
+				}
+				break
+			}
+			rootId, _ = x.(*ast.Ident)
+			if rootId == nil {
+				return nil, false
+			}
+			idx := -1
+			for i, p := range callee.Params {
+				if p.Name() == rootId.Name {
+					idx = i
+				}
+			}
+			if idx < 0 || idx >= len(call.Args) {
+				return nil, false
+			}
+			pt, ok := callee.Params[idx].Type().Underlying().(*types.Pointer)
+			if !ok {
+				return nil, false
+			}
+			if _, isSlice := pt.Elem().Underlying().(*types.Slice); isSlice {
+				return nil, false
+			}
+			// walk the selectors: every step must stay inside the object (struct values, no pointer hops)
+			t := pt.Elem()
+			for _, sname := range sels {
+				stt, ok := t.Underlying().(*types.Struct)
+				if !ok {
+					return nil, false
+				}
+				found := false
+				for i := 0; i < stt.NumFields(); i++ {
+					if stt.Field(i).Name() == sname {
+						t = stt.Field(i).Type()
+						found = true
+					}
+				}
+				if !found {
+					return nil, false // promoted fields etc.: not resolved here
+				}
+			}
+			out = append(out, objMod{root: call.Args[idx], key: c.heapKeyFor(pt.Elem())})
+		}
+	}
+	return out, true
 }
 
 func (c *Ctx) ptrKeyOf(fr *Frame, v ssa.Value) (string, bool) {
@@ -671,7 +840,9 @@ func (c *Ctx) instrMods(fr *Frame, in ssa.Instruction, ms *modSet, depth int) {
 		c.callMods(fr, &x.Call, ms, depth)
 	case *ssa.Defer:
 		c.callMods(fr, &x.Call, ms, depth)
-	case *ssa.Go, *ssa.Send, *ssa.Select:
+	case *ssa.Send:
+		ms.ghost = true
+	case *ssa.Go, *ssa.Select:
 		ms.all = true
 	case *ssa.MapUpdate:
 		// maps are not in the heap model
@@ -699,6 +870,11 @@ func (c *Ctx) callMods(fr *Frame, call *ssa.CallCommon, ms *modSet, depth int) {
 				c.contractMods(ct, ms)
 				return
 			}
+		} else if ct := c.eng.funcTypeContract(call); ct != nil {
+			if !ct.Pure {
+				c.contractMods(ct, ms)
+			}
+			return
 		}
 		ms.all = true
 		return
@@ -1158,8 +1334,42 @@ func (c *Ctx) execInstr(fr *Frame, b *ssa.BasicBlock, st *State, in ssa.Instruct
 			c.assumeRange(st.reach, x.Type(), nv.S, 0)
 			return true
 		}
+		hv := c.havocVal(x.Type(), "maplookup")
+		fr.vals[x] = hv
+		// a package-level table built once from constants and only ever read:
+		// the value found is one of the table's values, the zero value when absent
+		if ld, ok := x.X.(*ssa.UnOp); ok && ld.Op == token.MUL {
+			if g, ok := ld.X.(*ssa.Global); ok {
+				if vals, ok := c.eng.constMapValues(g); ok && len(vals) <= 200 {
+					vs, okS := hv.S, "true"
+					vt := x.Type()
+					if x.CommaOk && len(hv.Elems) == 2 {
+						vs, okS = hv.Elems[0].S, hv.Elems[1].S
+						vt = hv.Elems[0].T
+					}
+					if vs != "" {
+						var alts []string
+						seen := map[string]bool{}
+						for _, cv := range vals {
+							t := c.val(fr, st, cv).S
+							if t != "" && !seen[t] {
+								seen[t] = true
+								alts = append(alts, fmt.Sprintf("(= %s %s)", vs, t))
+							}
+						}
+						zero := fmt.Sprintf("(= %s %s)", vs, c.sorts.zero(vt))
+						if x.CommaOk {
+							c.assume(st.reach, fmt.Sprintf("(ite %s %s %s)", okS, or(alts...), zero))
+						} else {
+							c.assume(st.reach, or(append(alts, zero)...))
+						}
+						c.trusted["constant package-level maps (built once in init from constants, only read in the module): a lookup yields one of the table's values or the zero value"] = true
+						return true
+					}
+				}
+			}
+		}
 		c.note("map lookup havocked")
-		fr.vals[x] = c.havocVal(x.Type(), "maplookup")
 		return true
 	case *ssa.Slice:
 		return c.execSlice(fr, st, x)
@@ -1300,7 +1510,19 @@ func (c *Ctx) execInstr(fr *Frame, b *ssa.BasicBlock, st *State, in ssa.Instruct
 		}
 		fr.vals[x] = Val{T: x.Type(), Elems: es}
 		return true
-	case *ssa.Go, *ssa.Send, *ssa.Select, *ssa.MakeChan:
+	case *ssa.Send:
+		// sequential model: handing a value to a channel does not change the
+		// sender's state; the number of sends is counted (ghost sent) so that
+		// contracts can bound it against the channel capacity.  Blocking and
+		// what other goroutines do meanwhile are not modelled.
+		c.trusted["channel send: no effect on the sender's sequential state; counted in ghost(sent); blocking / other goroutines not modelled"] = true
+		cur, ok := st.ghost["sent"]
+		if !ok {
+			cur = "0"
+		}
+		st.ghost["sent"] = c.def("ghost_sent", "Int", fmt.Sprintf("(+ %s 1)", cur))
+		return true
+	case *ssa.Go, *ssa.Select, *ssa.MakeChan:
 		c.leave("goroutines/channels in " + fr.fn.Name())
 		if v, ok := in.(ssa.Value); ok {
 			fr.vals[v] = c.havocVal(v.Type(), "chan")
